@@ -199,7 +199,7 @@ static void stack_cases(SchindelhauerTMCG &tmcg, BarnettSmartVTMF_dlog *vp, Barn
 static void group_stacks(Args &A, const std::string &which, int sub) {
 	const bool T = A.thorough();
 	std::vector<unsigned long> kappas = { 0, 1, 8, 16 }; if (T) { kappas.push_back(32); kappas.push_back(64); }
-	std::vector<size_t> ns = { 2, 3, 5, 8 }; if (T) { ns.push_back(1); ns.push_back(13); ns.push_back(32); }
+	std::vector<size_t> ns = { 2, 3, 5, 8 }; if (T) { ns.push_back(13); ns.push_back(32); }   // the property quantifies over n >= 2 (the arguments assert it)
 	// |q| = 100: ell_e = 18 is the admissibility boundary |q| = 2*ell_e + 64
 	std::vector<std::pair<Grp, unsigned long> > gs;
 	gs.push_back(std::make_pair(gen_group(160, 100), 8UL)); gs.push_back(std::make_pair(gen_group(192, 100), 18UL));
